@@ -327,6 +327,11 @@ func gqid(buf []byte, qid *Qid) []byte {
 
 func gstat(buf []byte, d *Dir, dotu bool) ([]byte, error) {
 	sz := len(buf)
+	if sz < 2+2+4+13+4+4+4+8 {
+		/* size[2] type[2] dev[4] qid[13] mode[4] atime[4] mtime[4] length[8] */
+		return nil, &Error{"stat too short", EINVAL}
+	}
+
 	d.Size, buf = gint16(buf)
 	d.Type, buf = gint16(buf)
 	d.Dev, buf = gint32(buf)
@@ -360,6 +365,10 @@ func gstat(buf []byte, d *Dir, dotu bool) ([]byte, error) {
 		d.Ext, buf = gstr(buf)
 		if buf == nil {
 			return nil, &Error{"d.Ext failed", EINVAL}
+		}
+
+		if len(buf) < 4+4+4 {
+			return nil, &Error{"n_uid, n_gid, n_muid failed", EINVAL}
 		}
 
 		d.Uidnum, buf = gint32(buf)
